@@ -13,6 +13,8 @@ NATIVE_DIR = os.path.join(os.path.dirname(os.path.dirname(os.path.abspath(__file
 
 
 def hx(b):
+    if isinstance(b, SymBytes):
+        return b.decode()
     b = bytes(b)
     return b.hex() if b else '-'
 
@@ -21,10 +23,24 @@ def unhx(s):
     return b'' if s == '-' else bytes.fromhex(s)
 
 
+class SymBytes(bytes):
+    """placeholder for a (partly) symbolic byte string inside an output line"""
+    sym = None
+
+
+_CUR = [None]      # the ScriptRunner whose exec is running (for placeholder registration)
+
+
 def conc(s):
-    """S -> bytes; symbolic bytes are not allowed in scripts"""
-    if not S(s).is_concrete():
-        raise Unmodelled('script output contains symbolic bytes')
+    """S -> bytes; symbolic byte strings become a placeholder that is filled in from a model"""
+    s = S(s)
+    if not s.is_concrete():
+        r = _CUR[0]
+        k = len(r.outsyms)
+        r.outsyms.append(s)
+        b = SymBytes(('{%d}' % k).encode())
+        b.sym = s
+        return b
     return bytes(s)
 
 
@@ -54,6 +70,73 @@ class ScriptRunner:
         self.ex = ex
         self.w = World(ex)
         self.paths, self.handles, self.ctls = {}, {}, {}
+        self.syms = {}        # $name -> S (bytes) or BV/int
+        self.outsyms = []     # symbolic byte strings referenced by {k} in output lines
+        self.log = []         # (script line, output string)
+        self.last = None      # raw Outcome of the last operation
+
+    def do(self, line):
+        """execute one script line in the engine; returns the normalised output string"""
+        t = line.split()
+        _CUR[0] = self
+        try:
+            r = self.exec(t)
+        except Panic as p:
+            r = 'panic'
+            self.last = Outcome('panic', msg=p.msg, where=p.where)
+        except Deadlock as dl:
+            r = 'deadlock'
+            self.last = Outcome('deadlock', msg=str(dl))
+        self.log.append((line, r))
+        return r
+
+    def arg_bytes(self, tok):
+        if tok.startswith('$'):
+            return self.syms[tok[1:]]
+        return S(unhx(tok))
+
+    def arg_int(self, tok):
+        if tok.startswith('$'):
+            return self.syms[tok[1:]]
+        return int(tok)
+
+    def materialize(self, model):
+        """concrete (script text, expected output lines) under a solver model"""
+        import z3
+
+        def val(x, bits=8):
+            if type(x) is int:
+                return x
+            v = model.eval(x, model_completion=True)
+            return v.as_long()
+
+        def sub_line(line):
+            out = []
+            for tok in line.split():
+                if tok.startswith('$'):
+                    v = self.syms[tok[1:]]
+                    if isinstance(v, tuple):
+                        tok = hx(bytes(val(b) for b in v))
+                    else:
+                        n = val(v)
+                        if hasattr(v, 'size') and tok[1:].startswith('i') and n >= 1 << (v.size() - 1):
+                            n -= 1 << v.size()
+                        tok = str(n)
+                out.append(tok)
+            return ' '.join(out)
+
+        def sub_out(o):
+            for k, sv in enumerate(self.outsyms):
+                ph = '{%d}' % k
+                if ph in o:
+                    if len(sv) == 2 and sv[0] == 'int':
+                        o = o.replace(ph, str(val(sv[1])))
+                    else:
+                        o = o.replace(ph, hx(bytes(val(b) for b in sv)))
+            return o
+        lines = [sub_line(l) for l, _ in self.log]
+        outs = ['%d %s' % (i + 1, sub_out(o)) for i, (_, o) in enumerate(self.log)]
+        return lines, outs
 
     def reset(self):
         self.paths, self.handles, self.ctls = {}, {}, {}
@@ -76,17 +159,14 @@ class ScriptRunner:
                 self.reset()
                 out.append('%d reset' % (i + 1))
                 continue
-            t = line.split()
-            try:
-                r = self.exec(t)
-            except Panic:
-                r = 'panic'
+            r = self.do(line)
             out.append('%d %s' % (i + 1, r))
         return out
 
     def exec(self, t):
         w, ex, P = self.w, self.ex, self.paths
         op = t[0]
+        self.last = None
         if op == 'fs':
             kind = t[2]
             if kind == 'mem':
@@ -94,7 +174,11 @@ class ScriptRunner:
             elif kind == 'alt':
                 P[t[1]] = w.new_altroot(P[t[3]])
             elif kind == 'ovl':
-                P[t[1]] = w.new_overlay([P[k] for k in t[3:]])
+                o = w.guard(lambda: w.new_overlay([P[k] for k in t[3:]]))
+                self.last = o
+                if not o.ok:
+                    return fmt_err(o)
+                P[t[1]] = o.value
             elif kind in ('wmem', 'walt'):
                 from .wrapfs import new_wrapped
                 P[t[1]] = new_wrapped(self, kind, t[3], P[t[4]] if kind == 'walt' else None)
@@ -108,132 +192,170 @@ class ScriptRunner:
             from .wrapfs import ctl_op
             return ctl_op(self, t)
         if op == 'join':
-            o = w.join(P[t[2]], S(unhx(t[3])))
+            o = self.last = w.join(P[t[2]], self.arg_bytes(t[3]))
             if o.ok:
                 P[t[1]] = o.value
                 return 'ok:' + hx(conc(w.as_str(o.value)))
             return fmt_err(o)
         if op in ('parent', 'root'):
-            o = w.call(op, P[t[2]])
+            o = self.last = w.call(op, P[t[2]])
             if not o.ok:
                 return fmt_err(o)
             P[t[1]] = o.value
             return 'ok:' + hx(conc(w.as_str(o.value)))
         if op == 'filename':
-            o = w.call('filename', P[t[1]])
+            o = self.last = w.call('filename', P[t[1]])
             return 'ok:' + hx(conc(o.value)) if o.ok else fmt_err(o)
         if op == 'extension':
-            o = w.call('extension', P[t[1]])
+            o = self.last = w.call('extension', P[t[1]])
             if not o.ok:
                 return fmt_err(o)
             return 'ok:none' if o.value.variant == 'None' else 'ok:some:' + hx(conc(o.value.fields[0]))
         if op == 'is_root':
-            o = w.call('is_root', P[t[1]])
+            o = self.last = w.call('is_root', P[t[1]])
+            if o.ok:
+                o.value = ex.branch(o.value)
             return 'ok:' + boolv(ex, o.value) if o.ok else fmt_err(o)
         if op == 'eq':
-            o = w.guard(lambda: w.F('<path::VfsPath as PartialEq>::eq', [ValRef(P[t[1]]), ValRef(P[t[2]])]))
+            o = self.last = w.guard(lambda: w.F('<path::VfsPath as PartialEq>::eq', [ValRef(P[t[1]]), ValRef(P[t[2]])]))
+            if o.ok:
+                o.value = ex.branch(o.value)
             return 'ok:' + boolv(ex, o.value) if o.ok else fmt_err(o)
         if op in ('create_dir', 'create_dir_all', 'remove_file', 'remove_dir', 'remove_dir_all'):
-            return unit(w.call(op, P[t[1]]))
+            o = self.last = w.call(op, P[t[1]])
+            return unit(o)
         if op in ('copy_file', 'move_file', 'move_dir'):
-            return unit(w.call(op, P[t[1]], ValRef(P[t[2]])))
+            o = self.last = w.call(op, P[t[1]], ValRef(P[t[2]]))
+            return unit(o)
         if op == 'copy_dir':
-            o = w.copy_dir(P[t[1]], P[t[2]])
+            o = self.last = w.copy_dir(P[t[1]], P[t[2]])
             return 'ok:%d' % o.value if o.ok else fmt_err(o)
         if op in ('exists', 'is_file', 'is_dir'):
-            o = w.call(op, P[t[1]])
+            o = self.last = w.call(op, P[t[1]])
+            if o.ok:
+                o.value = ex.branch(o.value)
             return 'ok:' + boolv(ex, o.value) if o.ok else fmt_err(o)
         if op == 'metadata':
-            o = w.metadata(P[t[1]])
+            o = self.last = w.metadata(P[t[1]])
             if not o.ok:
                 return fmt_err(o)
             m = o.value
-            return 'ok:%s:%d' % ('file' if m.fields[0].variant == 'File' else 'dir', m.fields[1])
+            ln = m.fields[1]
+            if type(ln) is not int:
+                ln = ex.concretize(ln, 64)
+            o.value = ('file' if m.fields[0].variant == 'File' else 'dir', ln, m)
+            return 'ok:%s:%d' % (o.value[0], ln)
         if op == 'times':
-            o = w.metadata(P[t[1]])
+            o = self.last = w.metadata(P[t[1]])
             if not o.ok:
                 return fmt_err(o)
             m = o.value
             names = ex.prog.struct_fields.get('VfsMetadata', ['file_type', 'len', 'created', 'modified', 'accessed'])
             g = lambda n: m.fields[names.index(n)]
+            o.value = {'c': g('created'), 'm': g('modified'), 'a': g('accessed')}
             return 'ok:c=%s,m=%s,a=%s' % (self.tsec(g('created')), self.tsec(g('modified')), self.tsec(g('accessed')))
         if op == 'set_time':
-            tm = Adt('SystemTime', None, [int(t[3])])
+            tv = self.arg_int(t[3])
+            tm = Adt('SystemTime', None, [tv])
             which = {'c': 'creation', 'm': 'modification', 'a': 'access'}[t[2]]
-            return unit(w.set_time(which, P[t[1]], tm))
+            o = self.last = w.set_time(which, P[t[1]], tm)
+            return unit(o)
         if op == 'read_dir':
-            o = w.read_dir(P[t[1]])
+            o = self.last = w.read_dir(P[t[1]])
             if not o.ok:
                 return fmt_err(o)
-            names = sorted(hx(conc(w.as_str(v))) for v in o.value)
+            o.value = [w.as_str(v) for v in o.value]
+            names = [hx(conc(v)) for v in o.value]
+            if all(v.is_concrete() for v in o.value):
+                names.sort()
             return 'ok:[%s]' % ','.join(names)
         if op == 'walk_dir':
-            o = w.walk_dir(P[t[1]])
+            o = self.last = w.walk_dir(P[t[1]])
             if not o.ok:
                 return fmt_err(o)
-            base = conc(w.as_str(P[t[1]]))
-            seen, items, order_ok = [], [], True
+            base = w.as_str(P[t[1]])
+            vals = []
             for it in o.value:
-                if it.ok:
-                    s = conc(w.as_str(it.value))
-                    par = s[:s.rfind(b'/')] if b'/' in s else b''
+                vals.append(w.as_str(it.value) if it.ok else it)
+            o.value = vals
+            if not all(isinstance(v, Outcome) or v.is_concrete() for v in vals) or not base.is_concrete():
+                return 'ok:[%s]:order=?' % ','.join(hx(conc(v)) if not isinstance(v, Outcome) else fmt_err(v) for v in vals)
+            base = bytes(base)
+            seen, items, order_ok = [], [], True
+            for v in vals:
+                if not isinstance(v, Outcome):
+                    s_ = bytes(v)
+                    par = s_[:s_.rfind(b'/')] if b'/' in s_ else b''
                     if par != base and par not in seen:
                         order_ok = False
-                    seen.append(s)
-                    items.append(hx(s))
+                    seen.append(s_)
+                    items.append(hx(s_))
                 else:
-                    items.append(fmt_err(it))
+                    items.append(fmt_err(v))
             items.sort()
             return 'ok:[%s]:order=%s' % (','.join(items), 'true' if order_ok else 'false')
         if op == 'read_to_string':
-            o = w.read_to_string(P[t[1]])
+            o = self.last = w.read_to_string(P[t[1]])
             return 'ok:' + hx(conc(o.value)) if o.ok else fmt_err(o)
         if op in ('write', 'append'):
-            o = w.append_file(P[t[1]]) if op == 'append' else w.create_file(P[t[1]])
+            o = self.last = w.append_file(P[t[1]]) if op == 'append' else w.create_file(P[t[1]])
             if not o.ok:
                 return fmt_err(o)
             h = o.value
-            data = S(unhx(t[2]))
-            r = w.guard(lambda: models.call_model(ex, '<Box<dyn SeekAndWrite> as std::io::Write>::write_all', [ValRef(h), ValRef(data)]))
+            data = self.arg_bytes(t[2])
+            r = self.last = w.guard(lambda: models.call_model(ex, '<Box<dyn SeekAndWrite> as std::io::Write>::write_all', [ValRef(h), ValRef(data)]))
             if not r.ok:
+                w.h_drop(h)
                 return fmt_err(r)
-            d = w.h_drop(h)
+            d = self.last = w.h_drop(h)
             return 'ok' if d.ok else fmt_err(d)
         if op == 'read':
-            o = w.read_all(P[t[1]], int(t[2]))
+            o = self.last = w.read_all(P[t[1]], int(t[2]))
             return 'ok:' + hx(conc(o.value)) if o.ok else fmt_err(o)
         if op == 'hopen':
-            o = {'create': w.create_file, 'append': w.append_file, 'open': w.open_file}[t[3]](P[t[2]])
+            o = self.last = {'create': w.create_file, 'append': w.append_file, 'open': w.open_file}[t[3]](P[t[2]])
             if not o.ok:
                 return fmt_err(o)
             self.handles[t[1]] = o.value
             return 'ok'
         if op == 'hwrite':
-            o = w.h_write(self.handles[t[1]], S(unhx(t[2])))
+            o = self.last = w.h_write(self.handles[t[1]], self.arg_bytes(t[2]))
+            if o.ok and type(o.value) is not int:
+                o.value = ex.concretize(o.value, 64)
             return 'ok:%d' % o.value if o.ok else fmt_err(o)
         if op == 'hflush':
-            return unit(w.h_flush(self.handles[t[1]]))
+            o = self.last = w.h_flush(self.handles[t[1]])
+            return unit(o)
         if op == 'hseek':
-            off = int(t[3])
+            off = self.arg_int(t[3])
             var = {'start': 'Start', 'end': 'End', 'cur': 'Current'}[t[2]]
-            if var == 'Start':
+            if var == 'Start' and type(off) is int:
                 off &= (1 << 64) - 1
-            o = w.h_seek(self.handles[t[1]], var, off)
+            o = self.last = w.h_seek(self.handles[t[1]], var, off)
             if not o.ok:
                 return fmt_err(o)
             v = o.value
-            return 'ok:%d' % (v & ((1 << 64) - 1))
+            if type(v) is int:
+                return 'ok:%d' % (v & ((1 << 64) - 1))
+            k = len(self.outsyms)
+            self.outsyms.append(('int', v))
+            return 'ok:{%d}' % k
         if op == 'hread':
             n = int(t[2])
-            o = w.h_read(self.handles[t[1]], n)
+            o = self.last = w.h_read(self.handles[t[1]], n)
             if not o.ok:
                 return fmt_err(o)
             k, buf = o.value
+            if type(k) is not int:
+                k = ex.concretize(k, n)
+                if k is None:
+                    return 'ok:toolarge'
+                o.value = (k, buf)
             return 'ok:%d:%s' % (k, hx(conc(buf[:min(k, n)])))
         if op == 'hdrop':
             h = self.handles.pop(t[1], None)
             if h is not None:
-                d = w.h_drop(h)
+                d = self.last = w.h_drop(h)
                 if not d.ok:
                     return fmt_err(d)
             return 'ok'
